@@ -183,6 +183,13 @@ def build_unit(contract, case, contracts, world):
     u = Unit(contract, case)
     reg = Registry()
     u.reg = reg
+    # Contract(ghost={"prune_defs": True}): function DEFINITIONS (define-fun / define-fun-rec) that a query does not use are
+    # left out of its script (Registry.script): a definition is a conservative extension, dropping an unused one cannot
+    # turn a satisfiable query unsatisfiable
+    reg.prune_defs = bool(case.ghost.get("prune_defs"))
+    # Contract(ghost={"opaque_defs": [name, ..]}): these defined functions are only DECLARED in the scripts of this unit (their
+    # defining equations are withheld from the solver): fewer hypotheses, so whatever is proved holds with the definition too
+    reg.opaque_defs = set(case.ghost.get("opaque_defs") or ())
     try:
         modctx = world.modctx(contract.file)
         u.src_sha = modctx.sha
@@ -244,6 +251,37 @@ def build_unit(contract, case, contracts, world):
                 cls_inv = cs.invariant
                 for inv in cs.invariant:
                     st.assume(eval_spec(ip, st, {"self": selfv}, inv))
+        # objects handed in as (components of) other parameters and typed with a class view: the view's invariant is part
+        # of the typing of the input (a precondition of this unit; call sites owe it for directly typed parameters)
+        def _typed_objects(v, depth=0):
+            from .sym import Tup as _Tup, PyListCell as _PL
+            if depth > 3:
+                return
+            if isinstance(v, Ref) and not v.path:
+                cell = st.heap.get(v.cid)
+                if isinstance(cell, ObjCell):
+                    yield v
+                elif isinstance(cell, _PL):
+                    for x in cell.items:
+                        for y in _typed_objects(x, depth + 1):
+                            yield y
+            elif isinstance(v, _Tup):
+                for x in v.items:
+                    for y in _typed_objects(x, depth + 1):
+                        yield y
+        if not contract.qual.endswith("__init__") or True:
+            for pname, pv in list(u.params.items()):
+                if pv is selfv:
+                    continue
+                for ov in _typed_objects(pv):
+                    if isinstance(selfv, Ref) and ov.cid == selfv.cid:
+                        continue
+                    csv_ = contracts.classes.get(st.heap[ov.cid].cls)
+                    if csv_ is not None and csv_.invariant:
+                        for inv in csv_.invariant:
+                            st.assume(eval_spec(ip, st, {"self": ov}, inv))
+                        ip.assumptions.add("typing precondition: an object handed in as (part of) parameter `%s` of %s satisfies "
+                                           "the invariant of its view %s" % (pname, case.name, csv_.name))
         if case.ghost.get("fs"):
             from .lib import fs_init
             fs_init(ip, st)
@@ -283,6 +321,10 @@ def build_unit(contract, case, contracts, world):
                 raise Unsupported("break/continue outside loop")
         # canary: `ensures False` on the normal exits must be refuted (contradictory hypotheses otherwise)
         normal = [(k, s2) for k, s2, _ in outcomes if k in ("next", "return")]
+        if any(str(cond).strip() == "True" for cond in case.raises.values()):
+            # the contract says the function ALWAYS raises: every normal exit is proved infeasible (obligation `normal exit
+            # implies not (raises ... condition)`), so contradictory hypotheses there are what is claimed, not a defect
+            normal = []
         # (some symbolic paths are infeasible by themselves; at least one normal exit must be feasible)
         for kx, (_, sx) in enumerate(normal[:8]):
             ip.vcs.append(VC("canary ensures False#%d" % kx, "canary", list(sx.pc), FALSE, sx.trace))
@@ -319,6 +361,8 @@ def check_normal_exit(ip, case, entry, st, res, selfv, cls_inv, contracts):
         env["$elst"] = st.env["$elst"]
     if "$fs" in st.env:
         env["$fs"] = st.env["$fs"]
+    if "$seen" in st.env:
+        env["$seen"] = st.env["$seen"]      # seen(k) in a postcondition: the keys the function's LAST dictionary loop has visited
     env["$locals"] = Fun("locals", env=dict(st.env))      # for the spec form local(name): a local variable at the exit
     if getattr(case, "result_ref", None) and isinstance(entry.env.get(case.result_ref[0]), Ref):
         from .dicts import path_ref, same_ref
@@ -329,7 +373,9 @@ def check_normal_exit(ip, case, entry, st, res, selfv, cls_inv, contracts):
         ip.emit("post", "result is the object at the declared key path (result_ref)", st, g)
     if case.result_alias is not None:
         ip.emit("post", "result is the parameter %s itself" % case.result_alias, st,
-                ip.py_is(st, res, entry.env[case.result_alias]) if isinstance(res, Ref) else FALSE)
+                ip.py_is(st, res, entry.env[case.result_alias])
+                if isinstance(res, Ref) or (isinstance(res, (Tup, Opaque)) and isinstance(entry.env[case.result_alias], type(res)))
+                else FALSE)     # (a tuple / an abstract object handed back: the very value the parameter was bound to)
     for cl in getattr(case, "lemmas", []):
         # Contract(lemmas=[...]): instances of PROVED lemmas about reference functions, made available to the proof of the
         # postcondition.  A clause must be one application of a registered lemma function (contracts.lemma_functions):
